@@ -63,7 +63,7 @@ func c10List(msgs []*fbb.Message, err error) string {
 
 func runC10(ctx *Ctx) error {
 	r, res := ctx.Rng, ctx.Res
-	res.Rule = "histories over a universe of 7 MIDs (incl. one sorting before '.' in file-name order, one containing a dot and one ending in the mailbox's own extension), 3 recipient forms, forwarder lists {none, one, two, mixed case, the same station twice or in two spellings} and the P2P-only flag: AddOut, Prepare, restart with a fresh DirHandler (normal / send-only), GetOutbound, SetSent, SetDeferred, ProcessInbound, GetInboundAnswer, SetUnread (a third of them set, reversed and set again on the same listed message), folder listings; random histories of length 4..40 (a third of them about one message within one long session) and (thorough) all histories of length <= 4 over a reduced alphabet. Every observation of the real DirHandler on a temporary directory is compared with the model; returned outbound messages must carry no X-FilePath / X-Unread / X-P2POnly header. SetSent of a MID not in the outbox (log.Fatalf) is run in a child process. Non-trivial: history with a SetSent or an inbound message followed by a query; distinct by history."
+	res.Rule = "histories over a universe of 7 MIDs (incl. one sorting before '.' in file-name order, one containing a dot and one ending in the mailbox's own extension), 3 recipient forms, forwarder lists {none, one, two, mixed case, the same station twice or in two spellings} and the P2P-only flag: AddOut, Prepare, restart with a fresh DirHandler (normal / send-only), GetOutbound, SetSent, SetDeferred, ProcessInbound, GetInboundAnswer, SetUnread (a third of them set, reversed and set again on the same listed message), folder listings; random histories of length 4..40 (a third of them about one message within one long session; every eighth beginning with post, flag in the outbox, sent, flag in the sent folder, listings) and (thorough) all histories of length <= 4 over a reduced alphabet. Every observation of the real DirHandler on a temporary directory is compared with the model; returned outbound messages must carry no X-FilePath / X-Unread / X-P2POnly header. SetSent of a MID not in the outbox (log.Fatalf) is run in a child process. Non-trivial: history with a SetSent or an inbound message followed by a query; distinct by history."
 	root, err := os.MkdirTemp("", "verif-c10-")
 	if err != nil {
 		return err
@@ -105,12 +105,28 @@ func runC10(ctx *Ctx) error {
 		if r.Intn(3) == 0 {
 			focus = mids[r.Intn(len(mids))]
 		}
+		// every eighth history begins with: post, flag it in the outbox, report it sent, flag it in the
+		// sent folder, list both folders, ask for outbound messages (the flag changes rewrite the file
+		// where it is NOW)
+		var script [][3]int
+		if id%8 == 5 {
+			focus = mids[r.Intn(len(mids))]
+			script = [][3]int{{0, -1, -1}, {10, 1, 1}, {6, -1, -1}, {10, 2, 0}, {11, 1, -1}, {11, 2, -1}, {4, -1, -1}, {10, 2, 1}, {11, 2, -1}}
+			if length < 12 {
+				length = 12
+			}
+		}
 		for len(steps) < length {
 			mid := mids[r.Intn(len(mids))]
 			if focus != "" {
 				mid = focus
 			}
 			kind := r.Intn(12)
+			forcedF, forcedU := -1, -1
+			if len(script) > 0 {
+				kind, forcedF, forcedU = script[0][0], script[0][1], script[0][2]
+				script = script[1:]
+			}
 			if focus != "" && (kind == 2 || kind == 3) && r.Intn(4) != 0 {
 				continue
 			}
@@ -193,6 +209,9 @@ func runC10(ctx *Ctx) error {
 			case 10:
 				f := r.Intn(3)
 				u := r.Intn(2) == 0
+				if forcedF >= 0 {
+					f, u = forcedF, forcedU == 1
+				}
 				toggle := r.Intn(3) == 0 // flag set, reversed and set again on the SAME listed message: the last call decides
 				steps = append(steps, step{fmt.Sprintf("unread %s %s %s", ti(f), ts(mid), tb(u)), func(h **mailbox.DirHandler, dir string) string {
 					var msgs []*fbb.Message
@@ -223,6 +242,9 @@ func runC10(ctx *Ctx) error {
 				}})
 			default:
 				f := r.Intn(3)
+				if forcedF >= 0 {
+					f = forcedF
+				}
 				steps = append(steps, step{"list " + ti(f), func(h **mailbox.DirHandler, dir string) string {
 					switch f {
 					case 0:
